@@ -179,3 +179,28 @@ func VerifC16_HostWithoutTopic() {
 	verif_Quiesce()
 	verif_Assert(verif_LiveThreads() <= 0, "no goroutine of the receiver remains")
 }
+
+// C16 (with a pubsub topic handed in by the caller but WITHOUT a libp2p host —
+// an unusual but valid combination): no watcher can run, announcements arrive
+// directly; Close returns (once and again), waiters are released.
+func VerifC16_TopicWithoutHost() {
+	sender := c09pid(0xaa)
+	topic := &pubsub.Topic{}
+	r, err := NewReceiver(nil, "", WithTopic(topic))
+	if err != nil || r == nil {
+		// refusing the combination is acceptable; accepting it and hanging is not
+		return
+	}
+	verif_Quiesce()
+	verif_Reach("settled")
+	verif_Assert(r.Direct(context.Background(), c09cid(41), peer.AddrInfo{ID: sender}) == nil, "a direct announcement is accepted")
+	a, nerr := r.Next(context.Background())
+	verif_Assert(nerr == nil && a.Cid == c09cid(41) && a.PeerID == sender, "and delivered")
+	_ = r.Close() // (a Close that never returns is reported as a hang)
+	verif_Reach("closed")
+	_ = r.Close()
+	_, nerr = r.Next(context.Background())
+	verif_Assert(nerr != nil, "Next after Close returns the closed error")
+	verif_Quiesce()
+	verif_Assert(verif_LiveThreads() <= 0, "no goroutine of the receiver remains")
+}
